@@ -117,6 +117,8 @@ def check_case(case):
   built = G.build(shape, gin)
   sig = built.signature()
   labels = {'kind:' + shape['kind'], 'api:' + shape['api']}
+  if shape.get('later_sibling') and shape.get('method_api') == 'register':
+    labels.add('method-with-a-same-named-method-in-a-later-class')
   sel_full = built.selector
   spellings = {'full': sel_full, 'short': '.'.join(sel_full.split('.')[1:])}
 
@@ -174,7 +176,8 @@ def check_case(case):
     applicable = M.overlay(model, active)
 
     # get_bindings under the active scope == overlay; strict == exact scope only
-    target = sel_full if shape['kind'] == 'method' else (built.cls or built.original)
+    target = (sel_full if shape['kind'] in ('method', 'callobj', 'boundmethod')
+              else (built.cls or built.original))
     # (get_bindings hands out a deep copy, which *evaluates* evaluated references: it is not
     # asked about a configuration holding the poison reference)
     if not case.get('poison'):
@@ -314,7 +317,12 @@ FALSY = [0, None, False, '', [], {}, 0.0]
 
 @st.composite
 def strategy(draw):
-  shape = draw(G.shapes())
+  shape = draw(G.shapes(kinds=('function', 'function', 'class_init', 'class_new', 'method', 'method',
+                               'callobj', 'boundmethod')))
+  if shape['kind'] in ('callobj', 'boundmethod') and shape['api'] == 'configurable':
+    shape['api'] = 'external'
+  if shape['kind'] == 'method' and draw(st.booleans()):
+    shape['later_sibling'] = True
   entries = draw(st.lists(_entry, min_size=0, max_size=4))
   stack = M.ScopeStack()
   for e in entries:
